@@ -58,6 +58,37 @@ fn build_many(c: &Case, key: &KeyMat, n: usize) -> Vec<Out<String>> {
     }
 }
 
+thread_local! {
+    /// every nonce minted under the (single) test key in this process, per protocol: nonces must also be distinct ACROSS
+    /// histories (a nonce source with a small state space collides by the birthday bound long before one history does)
+    static ALL_NONCES: std::cell::RefCell<std::collections::HashMap<&'static str, HashSet<Vec<u8>>>> = std::cell::RefCell::new(std::collections::HashMap::new());
+}
+
+fn register_nonces(p: P, tag: &str, nonces: &[Vec<u8>], r: &mut Report) {
+    ALL_NONCES.with(|m| {
+        let mut m = m.borrow_mut();
+        let set = m.entry(p.name()).or_default();
+        let mut hit: Option<&Vec<u8>> = None;
+        let mut nhit = 0usize;
+        for x in nonces {
+            if !set.insert(x.clone()) {
+                nhit += 1;
+                if hit.is_none() {
+                    hit = Some(x);
+                }
+            }
+        }
+        match hit {
+            Some(x) => r.violation(
+                format!("C10 nonce-repeated-across-histories {}", p.name()),
+                format!("{}: {} nonce(s) of history {} were already used by an earlier history under the same key in this process ({} nonces so far); first: {}", p.name(), nhit, tag, set.len(), util::hex(x)),
+                json!({"cmd": "C10", "note": "cross-history case: re-run the check", "protocol": p.name()}),
+            ),
+            None => r.count(&format!("{} nonces distinct across all histories of the process", p.name())),
+        }
+    });
+}
+
 pub fn run_case(c: &Case, r: &mut Report) {
     let key = KeyMat::sym(*b"wubbalubbadubdubwubbalubbadubdub");
     let tag = format!("{}/{}/{}", c.p.name(), c.layer.name(), if c.reuse { "one-builder" } else { "fresh-builder" });
@@ -129,6 +160,9 @@ pub fn run_case(c: &Case, r: &mut Report) {
         r.violation(format!("C10 token-repeated {}", tag), format!("{}: {} builds produced only {} distinct tokens", tag, n, tokset.len()), replay.clone());
     } else {
         r.count(&format!("{} all-distinct", tag));
+    }
+    if dup.is_none() {
+        register_nonces(c.p, &tag, &nonces, r);
     }
     // per-bit frequency
     let bound = 5.3 * (n as f64).sqrt();
@@ -375,6 +409,9 @@ pub fn cases(tier: &str) -> Vec<Case> {
                 v.push(Case { p, layer, reuse, n: 4096, threads: 1 });
             }
         }
+        // one builder object used 70 000 times: beyond any 16-bit call counter
+        v.push(Case { p, layer: Layer::Generic, reuse: true, n: 70_000, threads: 1 });
+        v.push(Case { p, layer: Layer::Batteries, reuse: true, n: 70_000, threads: 1 });
         // several threads minting at once (each its own builders): per-thread nonce sources must not run in lock-step
         v.push(Case { p, layer: Layer::Generic, reuse: false, n: 8192, threads: 8 });
         v.push(Case { p, layer: Layer::Batteries, reuse: true, n: 8192, threads: 8 });
@@ -416,4 +453,4 @@ pub fn replay(case: &Value) -> Report {
     r
 }
 
-pub const RULE: &str = "one case = a history of N builds (quick N=4096 on one thread and N=8192 minted concurrently by 8 threads; thorough additionally N=102400 and N=1200000 from 16 threads, i.e. 75000 builds per builder object) under one key with IDENTICAL claims, footer and assertion, for v1-v4 local x {GenericBuilder, PasetoBuilder with exp/iat/nbf pinned} x {fresh builder per build, one builder reused}; the nonce field of every token is extracted (32 bytes, v2: 24). Monitors: pairwise-distinct nonces and tokens, per-bit one-frequency within N/2 +- 5.3*sqrt(N), no constant byte position; the whole run is executed in two separate processes and the first 64 nonces of every history are compared across processes (fixed-seed PRNG). Idle-pause histories: three bursts of builds on ONE thread (fresh builders, a reused one and a batteries-included builder kept across the pauses) separated by 1.3 s (thorough also 3.1, 11 and 31 s) of idle time: no nonce may recur across a pause. Fault injection through the hook verif::set_rng_fault: while the system RNG fails, 16 builds under identical inputs must either fail or carry pairwise distinct nonces (a fallback to a stale/default/input-derived nonce repeats), and builds must succeed again with distinct tokens once the fault is cleared. distinct_nontrivial = distinct (version, layer, builder mode, N, threads) histories that built >= 1000 tokens";
+pub const RULE: &str = "one case = a history of N builds (quick N=4096 on one thread, N=70000 from ONE builder object and N=8192 minted concurrently by 8 threads; thorough additionally N=102400 and N=1200000 from 16 threads, i.e. 75000 builds per builder object) under one key with IDENTICAL claims, footer and assertion, for v1-v4 local x {GenericBuilder, PasetoBuilder with exp/iat/nbf pinned} x {fresh builder per build, one builder reused}; the nonce field of every token is extracted (32 bytes, v2: 24). Monitors: pairwise-distinct nonces and tokens within a history AND across all histories of the process (about 190 000 nonces per protocol in the quick tier, millions in the thorough tier: a nonce source with a 32-bit state space collides by the birthday bound), per-bit one-frequency within N/2 +- 5.3*sqrt(N), no constant byte position; the whole run is executed in two separate processes and the first 64 nonces of every history are compared across processes (fixed-seed PRNG). Idle-pause histories: three bursts of builds on ONE thread (fresh builders, a reused one and a batteries-included builder kept across the pauses) separated by 1.3 s (thorough also 3.1, 11 and 31 s) of idle time: no nonce may recur across a pause. Fault injection through the hook verif::set_rng_fault: while the system RNG fails, 16 builds under identical inputs must either fail or carry pairwise distinct nonces (a fallback to a stale/default/input-derived nonce repeats), and builds must succeed again with distinct tokens once the fault is cleared. distinct_nontrivial = distinct (version, layer, builder mode, N, threads) histories that built >= 1000 tokens";
